@@ -7,7 +7,8 @@ the tables; nothing is recorded from the real validator.  The answer is compared
 `TabularInput/SpreadsheetInput.validate`: exception class, or the complete sorted (kind, severity, ec_row, ec_column) list.
 Rows that get the row-level checks although one of their cells is malformed are computed on the concatenation of the
 cells' trees (`Tabular.validateClosedCells`, equal to `validateClosed` when there is no such row).  Tables holding a string
-outside the C01 model's fragment (a `Delay/` group, an unsupported value-class pattern, a string on which the real validator
+outside the C01 model's fragment (a Delay value that `float()` may read more liberally than the model or that is off the 1/8 s
+grid, an unsupported value-class pattern, a string on which the real validator
 raises) are answered `unmodelled`: skipped and counted by reason.
 
 Third stream (`run_closed_raw`, op `closed.c07raw`): the model side gets the sidecar JSON and the raw table only; assembly
@@ -54,7 +55,34 @@ class Setup:
         return dict(self.v.payload(chars), **c01.detect_variant(), ns="")
 
 
+DELAY_VALUES = [("0.5 s", 4), ("1 s", 8), ("1.5 s", 12), ("2 s", 16), ("0.125 s", 1), ("2.50 s", 20), ("500 ms", 4),
+                ("1500 ms", 12), ("250 ms", 2), ("0.05 minute", 24), ("0.025 minutes", 12), ("1 seconds", 8), ("1", None),
+                ("2.5", None)]
+DELAY_UNSURE = ["1_0 s", " 1  s", "inf s", "nan", "0.3 s", "1.0001 s", "1e-1 s"]     # float() more liberal / off the 1/8 s grid
+DELAY_INNER = ["Green", "Black", "(Red, Square)", "Triangle"]
+
+
+def delay_fragment(rng, uid):
+    """a Delay group: usable values in s / ms / minute (integer and decimal, on the grid), unitless (a warning, no value),
+    values the code cannot use, spellings outside the model, and Delay-shifted temporal markers"""
+    x = rng.random()
+    if x < 0.32:
+        return f"(Delay/{rng.choice(DELAY_VALUES)[0]}, ({rng.choice(DELAY_INNER)}, Label/d{uid}))"
+    if x < 0.40:       # two Delay groups in one cell: two appended time points (the first with a fault of its own)
+        return (f"(Delay/{rng.choice(DELAY_VALUES)[0]}, ({rng.choice(['Blue, Blue', 'Greenish', 'Green'])}, Label/d{uid})), "
+                f"(Delay/{rng.choice(DELAY_VALUES)[0]}, ({rng.choice(DELAY_INNER)}, Label/e{uid}))")
+    if x < 0.50:
+        return rng.choice(c07.BAD_DELAY)
+    if x < 0.57:
+        return f"(Delay/{rng.choice(DELAY_UNSURE)}, (Label/d{uid}))"
+    kind, name = rng.choice(KINDS), rng.choice(NAMES)
+    return render_marker(kind, name, uid, delay=rng.choice([4, 8, 12, 16, 20, 24]))
+
+
 def fragment(rng, g, uid, has_onset):
+    x = rng.random()
+    if x < (0.16 if has_onset else 0.03):
+        return delay_fragment(rng, uid)
     x = rng.random()
     if x < 0.30:
         return rng.choice(c07.VALID)
@@ -124,6 +152,17 @@ WITNESS = [  # a row whose only error sits in a cell other than the last: still 
     {"mode": "tabular", "onsets": [8, 16, 24], "cols": [["(Def/A, Onset)", "(Def/A, Inset), (Def/B, Offset)", "(Def/a, Offset)"]],
      "sidecar": None},
     {"mode": "tabular", "onsets": [24, 8], "cols": [["(Def/C/1, Offset)", "(Def/C/1, Onset, (Red)), Red, Red"]], "sidecar": None},
+    # Delay: a shifted Onset that makes a later Inset legal and an earlier one not
+    {"mode": "tabular", "onsets": [8, 12, 24], "cols": [["(Delay/1 s, Def/A, Onset)", "(Def/A, Inset)", "(Def/A, Inset)"]],
+     "sidecar": None},
+    # unordered file with a Delay: the shifted Offset (label 0, onset 3.0 s + 1 s) must use the onset of its own row
+    {"mode": "tabular", "onsets": [24, 8, 28], "cols": [["(Delay/1 s, Def/A, Offset)", "(Def/A, Onset, (Red))", "(Def/A, Inset)"]],
+     "sidecar": None},
+    # two Delay groups of one row: two time points, the fault of the first is reported
+    {"mode": "tabular", "onsets": [8], "cols": [["(Delay/1 s, (Blue, Blue)), (Delay/2000 ms, (Red))"]], "sidecar": None},
+    # unitless Delay (warning, no value: stays in its row), unusable unit, Delay in a row without numeric onset
+    {"mode": "tabular", "onsets": [8, None, 16], "cols": [["(Delay/1, (Red))", "(Delay/1 s, (Green))", "(Delay/1 xyz, (Blue))"]],
+     "sidecar": None},
 ]
 
 
@@ -161,9 +200,15 @@ def run_closed(ctx, specs=None, pairs=None):
                 ctx.disagree("Tabular.validateClosed = validate (exception)", case, m.get("exc", "issues"),
                              obs.get("exc", "issues"))
             continue
-        mine = c07.canon_obs([i[:4] for i in m["issues"]], [], rq["rowAdj"], rq["hasOnset"])
-        impl = c07.canon_obs([i["k"] for i in obs["issues"]], [], rq["rowAdj"], rq["hasOnset"])
+        # column-less labels of an onset file are compared modulo equal-time groups (the sort is not stable), as in c07.py
+        classes = c07.classes_of([(t, r) for t, r in m.get("parts", [])], len(rq["rows"])) if rq["hasOnset"] else []
+        if len(set(classes)) < len(classes):
+            ctx.count("closed:compared-with-equal-time-rows")
+        mine = c07.canon_obs([i[:4] for i in m["issues"]], classes, rq["rowAdj"], rq["hasOnset"])
+        impl = c07.canon_obs([i["k"] for i in obs["issues"]], classes, rq["rowAdj"], rq["hasOnset"])
         ctx.count("closed:compared" + ("-onset" if rq["hasOnset"] else ""))
+        if any("delay/" in x.casefold() for r in rq["rows"] for x in r["cells"]):
+            ctx.count("closed:compared-with-Delay" + ("-onset" if rq["hasOnset"] else ""))
         if m.get("split"):
             ctx.count("closed:compared-with-malformed-cell-in-checked-row")
         for i in m["issues"]:
@@ -178,7 +223,9 @@ def run_closed(ctx, specs=None, pairs=None):
             break
     ctx.extra["closed_rule"] = ("closed mode: 1-6 rows, 1-3 HED-bearing columns, cells from c01's conforming / injected-fault "
                                 "generator on 8.3.0, c07's fragments, Def/Def-expand uses, Duration groups and temporal markers "
-                                "(no Delay), distinct onsets; string validation computed by Validate inside Lean")
+                                "and Delay groups (s / ms / minute, unitless, unusable, two per cell, Delay-shifted markers; spellings float() reads more "
+                                "liberally and off-grid values exercise the skip), distinct onsets; string validation and Delay values "
+                                "computed by Validate inside Lean")
     ctx.check_time()
     if generated:
         run_closed_raw(ctx, su)
@@ -187,7 +234,8 @@ def run_closed(ctx, specs=None, pairs=None):
 # ------------------------------------------------------------------------------------------ raw stream (C06 o C07 o C01)
 RAW_BUDGET_S = 25
 RAW_NAMES = ["a", "b", "c", "resp", "x_y", "k-1"]
-RAW_VALUE = ["Label/#", "Item-count/#", "(Duration/# s, (White))", "Age/# years", "Label/#, Red", "(Label/#, Blue)", "Def/C/#"]
+RAW_VALUE = ["Label/#", "Item-count/#", "(Duration/# s, (White))", "Age/# years", "Label/#, Red", "(Label/#, Blue)", "Def/C/#",
+             "(Delay/# s, (White))", "(Delay/# minute, (Label/dv))"]
 RAW_FORMS = ["{%(t)s}, %(s)s", "(%(s)s, {%(t)s})", "%(s)s, ({%(t)s}, Cross)", "%(s)s, ({%(t)s})", "{%(t)s}", "%(s)s,{%(t)s}",
              "({%(t)s}, (%(s)s, {%(t)s}))"]
 RAW_WITNESS = [
@@ -198,6 +246,13 @@ RAW_WITNESS = [
      "header": ["b", "trial", "a", "c"], "rows": [["k1", "1", "3", "u"], ["k2", "2", "abc", "v"], ["", "3", "", "w"]]},
     {"sidecar": {"a": {"HED": {"k1": "(Def/A, Onset, {b})", "k2": "(Def/A, Offset)"}}, "b": {"HED": {"k1": "(Green)", "k2": "Blue"}}},
      "header": ["onset", "a", "b"], "rows": [["2.0", "k2", "k2"], ["1.0", "k1", "k1"], ["n/a", "k1", "k2"]]},
+    {"sidecar": {"e": {"HED": {"go": "(Delay/1 s, Def/A, Onset)", "in": "(Def/A, Inset)"}}},
+     "header": ["onset", "e"], "rows": [["1.0", "go"], ["1.5", "in"], ["3.0", "in"]]},
+    {"sidecar": {"e": {"HED": {"off": "(Delay/# s, Def/A, Offset)", "on": "(Def/A, Onset, (Red))", "in": "(Def/A, Inset)"}},
+                 "d": {"HED": "(Delay/# ms, (Label/x, {e}))"}},
+     "header": ["e", "onset", "d"], "rows": [["in", "3.5", "500"], ["on", "1.0", "n/a"], ["in", "3.0", "250"]]},
+    {"sidecar": {"v": {"HED": "(Delay/# s, (Blue, Blue)), (Delay/2 s, (Red))"}},
+     "header": ["onset", "v", "HED"], "rows": [["1.0", "1", "Green"], ["0.5", "0.5", "n/a"]]},
 ]
 
 
@@ -266,7 +321,7 @@ def gen_pair(rng, g):
             elif kinds.get(c) == "categorical":
                 row.append(rng.choice(list(sc[c]["HED"])) if u < 0.7 else rng.choice(["n/a", "", "zz", "N/A"]))
             elif kinds.get(c) == "value":
-                row.append(rng.choice(["3", "abc", "7.5", "x1"]) if u < 0.65 else rng.choice(["n/a", "", "3 4", "a#b"]))
+                row.append(rng.choice(["3", "abc", "7.5", "x1", "0.5", "250"]) if u < 0.65 else rng.choice(["n/a", "", "3 4", "a#b"]))
             elif kinds.get(c) == "untyped":
                 row.append(rng.choice(["Red", "Blue", "Greenish", "k1"]) if u < 0.6 else rng.choice(["n/a", ""]))
             else:
@@ -300,7 +355,7 @@ def run_closed_raw(ctx, su, pairs=None):
     t0 = time.time()
     rng = ctx.rng
     if pairs is None:
-        n = 200 if ctx.quick() else 3500
+        n = 260 if ctx.quick() else 3500
         pairs = list(RAW_WITNESS) + [gen_pair(rng, su.gen) for _ in range(n)]
     texts = [json.dumps(p, ensure_ascii=False) for p in pairs]
     reqs = [{"sidecar": [[c, c06.enc(e)] for c, e in p["sidecar"].items()], "header": p["header"], "rows": p["rows"],
@@ -330,14 +385,19 @@ def run_closed_raw(ctx, su, pairs=None):
         from harness.props.c08 import _walk_strings
         refs = any("{" in x for x in _walk_strings(pair["sidecar"]))
         ctx.count("closed-raw:compared" + ("-onset" if has_onset else ""))
+        if "delay/" in json.dumps(pair).casefold():
+            ctx.count("closed-raw:compared-with-Delay" + ("-onset" if has_onset else ""))
         if m.get("split"):
             ctx.count("closed-raw:compared-with-malformed-cell-in-checked-row")
         if refs:
             ctx.count("closed-raw:compared-with-refs")
         if m["columns"] != obs["columns"]:
             ctx.disagree("Raw.aColumns = dataframe_a.columns", case, m["columns"], obs["columns"])
-        mine = c07.canon_obs([i[:4] for i in m["issues"]], [], 2, has_onset)
-        impl = c07.canon_obs(obs["issues"], [], 2, has_onset)
+        classes = c07.classes_of([(t, r) for t, r in m.get("parts", [])], len(pair["rows"])) if has_onset else []
+        if len(set(classes)) < len(classes):
+            ctx.count("closed-raw:compared-with-equal-time-rows")
+        mine = c07.canon_obs([i[:4] for i in m["issues"]], classes, 2, has_onset)
+        impl = c07.canon_obs(obs["issues"], classes, 2, has_onset)
         for i in m["issues"]:
             ctx.count("closed-raw:src-" + i[4])
         if mine != impl:
